@@ -100,6 +100,9 @@ func c19Scenario(nUpdates int) func() schedScenario {
 				return strings.Join(parts, " "), fs
 			},
 			Elig: func(def, alt string) bool {
+				if alt == "DUP" {
+					return true // a peer that retransmits an answer (offered at the servers' answer writes only)
+				}
 				if alt != "DELAY" && alt != "TIME" {
 					return false
 				}
@@ -172,7 +175,7 @@ func init() {
 		rep.Cov["samples"] = samples
 		rep.Cov["exhaustive"] = exhaustive
 		rep.Cov["runs"] = per
-		rep.Cov["method"] = "stateless deviation-bounded exploration on the real CHF + go-diameter + ABMF/rating servers under the gate scheduler in virtual time: from the default (FIFO) schedule, every placement of up to k deviations, where a deviation delays by 6 s (beyond the 5 s client time-out) the thread about to read an answer from a client connection or to enter the client's message dispatcher, or lets the clock advance first; every execution runs to completion (or the virtual horizon) and is checked for cross-talk (grant/reservation not matching the update's own request), blocked requests and a failing fault-free probe"
+		rep.Cov["method"] = "stateless deviation-bounded exploration on the real CHF + go-diameter + ABMF/rating servers under the gate scheduler in virtual time: from the default (FIFO) schedule, every placement of up to k deviations, where a deviation makes a peer retransmit an application answer twice (DUP), or delays by 6 s (beyond the 5 s client time-out) the thread about to read an answer from a client connection or to enter the client's message dispatcher, or lets the clock advance first; every execution runs to completion (or the virtual horizon) and is checked for cross-talk (grant/reservation not matching the update's own request), blocked requests and a failing fault-free probe"
 		rep.Assumptions = append(rep.Assumptions, "a 'late' answer is one whose delivery thread is not scheduled before the requester's timer; a 'lost' answer is one never delivered before the end of the execution", "states = distinct observed outcomes; transitions = executions (schedules)")
 		_ = vs.S
 		return rep.Finish()
